@@ -55,7 +55,11 @@ pub(super) fn poll_connect(
     // Already in flight? Just check state and re-park.
     if let Some(tcb) = &k.lookup(fd).expect("fd validated").tcb {
         return match tcb.state {
-            TcpState::Established => Poll::Ready(Ok(())),
+            // CloseWait: the handshake completed and the peer has already
+            // sent its FIN (an acceptor that closes at once) before this
+            // future was polled again. The connect succeeded; reads see the
+            // peer's data, if any, and then EOF.
+            TcpState::Established | TcpState::CloseWait => Poll::Ready(Ok(())),
             TcpState::SynSent | TcpState::SynReceived => {
                 park_connect(k, fd, cx);
                 Poll::Pending
@@ -66,7 +70,6 @@ pub(super) fn poll_connect(
             TcpState::Closed
             | TcpState::FinWait1
             | TcpState::FinWait2
-            | TcpState::CloseWait
             | TcpState::LastAck
             | TcpState::Closing => {
                 if tcb.timed_out {
